@@ -129,10 +129,29 @@ pub const TEXTS: [&str; 22] = [
     "aaaaaaaaaaaaaaaaaaaaaaaa",  // 24
 ];
 
+/// Texts that *look like* something else: decimal spellings of registered / private-use / boundary
+/// integers, the IANA names of registered values (claim names, algorithm, key type, operation and
+/// parameter names).  A text label is always just a text, whatever it spells.
+pub const LOOKALIKE_TEXTS: [&str; 64] = [
+    "0", "1", "2", "3", "4", "5", "6", "7", "8", "-1", "-7", "-8", "-35", "42", "50", "60", "0060", "+50", "10000", "16", "18", "96", "98",
+    "-65536", "-65537", "-70000", "-0070000", "-9223372036854775808", "9223372036854775807", "18446744073709551615", "-18446744073709551616", "65536",
+    "iss", "sub", "aud", "exp", "nbf", "iat", "cti", "cnf", "scope", "ace_profile", "cnonce", "exi", "hcert", "EUPHNonce", "EATMAROEPrefix", "EAT-FDO",
+    "alg", "crit", "content type", "kid", "IV", "Partial IV", "counter signature", "kty", "key_ops", "Base IV",
+    "ES256", "EdDSA", "OKP", "EC2", "sign", "verify",
+];
+
 pub fn pal_text(r: &mut Rng) -> String {
-    match r.below(12) {
+    match r.below(14) {
         0 => "x".repeat(255),
         1 => "x".repeat(256),
+        12 | 13 => {
+            // rarely: texts whose length needs a 4-byte head (and the last one that does not)
+            if r.chance(1, 40) {
+                "y".repeat(*r.pick(&[65535usize, 65536, 65537, 70000]))
+            } else {
+                r.pick(&LOOKALIKE_TEXTS).to_string()
+            }
+        }
         2 => {
             let n = r.below(5);
             (0..n).map(|_| *r.pick(&['a', 'b', '/', ' ', '\u{e9}', '\u{2003}', 'z', '0'])).collect()
@@ -313,7 +332,92 @@ fn extras(r: &mut Rng, n: usize, forbidden: &dyn Fn(&MLabel) -> bool, label: &mu
     out
 }
 
+/// Collection sizes around the powers of two, where an implementation may switch strategy (linear
+/// scan vs set, inline vs heap, a nesting or element counter reaching its limit).
+pub const WIDE_SIZES: [usize; 16] = [7, 8, 9, 10, 15, 16, 17, 31, 32, 33, 63, 64, 65, 66, 129, 257];
+
+pub fn wide_n(r: &mut Rng) -> usize {
+    // the largest sizes only sometimes: they dominate the running time
+    let k = if r.chance(1, 4) { WIDE_SIZES.len() } else { WIDE_SIZES.len() - 2 };
+    WIDE_SIZES[r.below(k)]
+}
+
+/// `n` extras under pairwise distinct labels, in ascending, descending or scattered order.
+/// `kind`: 0 header / plain labels, 1 key parameters, 2 claims (registered, private or text only)
+pub fn wide_extras(r: &mut Rng, n: usize, kind: u8) -> Vec<(MLabel, Item)> {
+    let mut labels: Vec<MLabel> = Vec::with_capacity(n);
+    let base: i64 = match kind {
+        2 => -65537 - r.below(3) as i64 * 1000,
+        1 => *r.pick(&[6i64, 20, -1, -100, 70000]),
+        _ => *r.pick(&[8i64, 20, 100, -1, -1000, 70000, -70000, 250, 65530]),
+    };
+    let step: i64 = if base < 0 { -(1 + r.below(2) as i64) } else { 1 + r.below(2) as i64 };
+    let texts = r.chance(1, 3);
+    for k in 0..n {
+        if texts && r.chance(1, 6) {
+            labels.push(MLabel::Text(format!("k{}", k)));
+        } else {
+            labels.push(MLabel::Int(base + step * k as i64));
+        }
+    }
+    match r.below(4) {
+        0 => {}
+        1 => labels.reverse(),
+        _ => r.shuffle(&mut labels),
+    }
+    labels
+        .into_iter()
+        .enumerate()
+        .map(|(k, l)| (l, if r.chance(1, 8) { random_item(r, 1) } else { Item::Int(k as i128) }))
+        .collect()
+}
+
+fn tiny_signature(r: &mut Rng, o: &GenOpts, k: usize) -> MSignature {
+    let header = if r.chance(1, 3) { MHeader { kid: vec![k as u8, 1], ..Default::default() } } else { MHeader::default() };
+    let prot = if o.built { MProt { bytes: None, header } } else { MProt { bytes: Some(prot_bytes(r, &header, o.styled_prot)), header } };
+    MSignature { prot, unprot: MHeader::default(), sig: vec![k as u8] }
+}
+
+fn tiny_recipient(r: &mut Rng, o: &GenOpts, k: usize) -> MRecipient {
+    let header = if r.chance(1, 3) { MHeader { kid: vec![k as u8, 2], ..Default::default() } } else { MHeader::default() };
+    let prot = if o.built { MProt { bytes: None, header } } else { MProt { bytes: Some(prot_bytes(r, &header, o.styled_prot)), header } };
+    MRecipient { prot, unprot: MHeader::default(), ct: if r.chance(1, 5) { None } else { Some(vec![k as u8]) }, recipients: vec![] }
+}
+
+/// sometimes make one element an exact copy of its predecessor (repeated signers, recipients, keys
+/// and counter signatures are legal and must survive as they are)
+fn repeat_neighbour<T: Clone>(r: &mut Rng, v: &mut Vec<T>) {
+    if v.len() >= 2 && r.chance(1, 10) {
+        let i = r.below(v.len() - 1);
+        v[i + 1] = v[i].clone();
+    } else if !v.is_empty() && r.chance(1, 40) {
+        let i = r.below(v.len());
+        let x = v[i].clone();
+        v.insert(i, x);
+    }
+}
+
 pub fn gen_header(r: &mut Rng, o: &GenOpts, depth: u32) -> MHeader {
+    let mut h = gen_header_plain(r, o, depth);
+    // size thresholds: many extras / counter signatures / critical labels
+    if r.chance(1, 48) {
+        let n = wide_n(r);
+        h.rest = wide_extras(r, n, 0);
+    }
+    if depth < o.max_depth && r.chance(1, 64) {
+        let n = WIDE_SIZES[r.below(10)];
+        h.csigs = (0..n).map(|k| tiny_signature(r, o, k)).collect();
+    }
+    if r.chance(1, 64) {
+        let n = wide_n(r).min(66);
+        let regs = registry::values(Reg::HeaderParameter);
+        h.crit = (0..n).map(|k| if r.chance(1, 8) { MLabel::Text(format!("c{}", k % 5)) } else { MLabel::Int(regs[k % regs.len()]) }).collect();
+    }
+    repeat_neighbour(r, &mut h.csigs);
+    h
+}
+
+fn gen_header_plain(r: &mut Rng, o: &GenOpts, depth: u32) -> MHeader {
     let mut h = MHeader::default();
     // occasionally the empty header, or each field alone
     let mode = r.below(10);
@@ -453,7 +557,16 @@ pub fn gen_recipient(r: &mut Rng, o: &GenOpts, depth: u32) -> MRecipient {
         prot: gen_prot(r, o, depth.max(1)),
         unprot: gen_header(r, o, depth.max(1)),
         ct: if r.chance(1, 4) { None } else { Some(small_bytes(r)) },
-        recipients: (0..n).map(|_| gen_recipient(r, o, depth + 1)).collect(),
+        recipients: {
+            let mut v: Vec<MRecipient> = if n > 0 && r.chance(1, 32) {
+                let w = WIDE_SIZES[r.below(10)];
+                (0..w).map(|k| tiny_recipient(r, o, k)).collect()
+            } else {
+                (0..n).map(|_| gen_recipient(r, o, depth + 1)).collect()
+            };
+            repeat_neighbour(r, &mut v);
+            v
+        },
     }
 }
 
@@ -481,7 +594,22 @@ pub fn gen_key(r: &mut Rng) -> MKey {
         }
         ops.sort();
     }
+    if r.chance(1, 48) {
+        // many operations: every registered one plus texts
+        let n = wide_n(r).min(40);
+        ops = (1..=10).map(MLabel::Int).chain((0..n.saturating_sub(10)).map(|k| MLabel::Text(format!("op{}", k)))).collect();
+        ops.sort();
+    }
+    let wide = if r.chance(1, 48) { Some(wide_n(r)) } else { None };
     let n = r.below(4);
+    let mut key = gen_key_plain(r, ops, n);
+    if let Some(n) = wide {
+        key.params = wide_extras(r, n, 1);
+    }
+    key
+}
+
+fn gen_key_plain(r: &mut Rng, ops: Vec<MLabel>, n: usize) -> MKey {
     MKey {
         kty: if r.chance(1, 6) {
             MLabel::Text(pal_text(r))
@@ -553,6 +681,10 @@ pub fn gen_claims(r: &mut Rng) -> MClaims {
         &|l| matches!(l, MLabel::Int(i) if (1..=7).contains(i)),
         &mut |r| gen_claim_key(r),
     );
+    if r.chance(1, 48) {
+        let n = wide_n(r);
+        c.rest = wide_extras(r, n, 2);
+    }
     c
 }
 
@@ -588,14 +720,29 @@ pub fn gen_supp(r: &mut Rng, o: &GenOpts) -> MSuppPub {
 }
 
 pub fn gen_kdf(r: &mut Rng, o: &GenOpts) -> MKdf {
-    let n = if r.chance(1, 3) { r.below(4) } else { 0 };
+    let n = if r.chance(1, 48) { wide_n(r) } else if r.chance(1, 3) { r.below(4) } else { 0 };
     MKdf {
         alg: gen_alg(r),
         u: gen_party(r),
         v: gen_party(r),
         supp: gen_supp(r, o),
-        priv_info: (0..n).map(|_| small_bytes(r)).collect(),
+        priv_info: {
+            let mut p: Vec<Vec<u8>> = (0..n).map(|_| small_bytes(r)).collect();
+            repeat_neighbour(r, &mut p);
+            p
+        },
     }
+}
+
+fn gen_recipient_list(r: &mut Rng, o: &GenOpts, n: usize) -> Vec<MRecipient> {
+    let mut v: Vec<MRecipient> = if r.chance(1, 48) {
+        let n = wide_n(r).min(66);
+        (0..n).map(|k| tiny_recipient(r, o, k)).collect()
+    } else {
+        (0..n).map(|_| gen_recipient(r, o, 1)).collect()
+    };
+    repeat_neighbour(r, &mut v);
+    v
 }
 
 /// a valid value of type `ty`
@@ -609,11 +756,18 @@ pub fn gen_mval(r: &mut Rng, ty: Ty, o: &GenOpts) -> MVal {
         Ty::Signature => MVal::Signature(gen_signature(r, o, 0)),
         Ty::Sign => {
             let n = 1 + r.below(3);
+            let mut sigs: Vec<MSignature> = if r.chance(1, 48) {
+                let n = wide_n(r).min(66);
+                (0..n).map(|k| tiny_signature(r, o, k)).collect()
+            } else {
+                (0..n).map(|_| gen_signature(r, o, 1)).collect()
+            };
+            repeat_neighbour(r, &mut sigs);
             MVal::Sign(MSign {
                 prot: gen_prot(r, o, 0),
                 unprot: gen_header(r, o, 0),
                 payload: opt_payload(r),
-                sigs: (0..n).map(|_| gen_signature(r, o, 1)).collect(),
+                sigs,
             })
         }
         Ty::Sign1 => MVal::Sign1(MSign1 {
@@ -629,7 +783,7 @@ pub fn gen_mval(r: &mut Rng, ty: Ty, o: &GenOpts) -> MVal {
                 unprot: gen_header(r, o, 0),
                 payload: opt_payload(r),
                 tag: small_bytes(r),
-                recipients: (0..n).map(|_| gen_recipient(r, o, 1)).collect(),
+                recipients: gen_recipient_list(r, o, n),
             })
         }
         Ty::Mac0 => MVal::Mac0(MMac0 {
@@ -644,7 +798,7 @@ pub fn gen_mval(r: &mut Rng, ty: Ty, o: &GenOpts) -> MVal {
                 prot: gen_prot(r, o, 0),
                 unprot: gen_header(r, o, 0),
                 ct: opt_payload(r),
-                recipients: (0..n).map(|_| gen_recipient(r, o, 1)).collect(),
+                recipients: gen_recipient_list(r, o, n),
             })
         }
         Ty::Encrypt0 => MVal::Encrypt0(MEncrypt0 {
@@ -655,8 +809,10 @@ pub fn gen_mval(r: &mut Rng, ty: Ty, o: &GenOpts) -> MVal {
         Ty::Recipient => MVal::Recipient(gen_recipient(r, o, 0)),
         Ty::Key => MVal::Key(gen_key(r)),
         Ty::KeySet => {
-            let n = r.below(4);
-            MVal::KeySet((0..n).map(|_| gen_key(r)).collect())
+            let n = if r.chance(1, 48) { wide_n(r).min(66) } else { r.below(4) };
+            let mut keys: Vec<MKey> = (0..n).map(|_| gen_key(r)).collect();
+            repeat_neighbour(r, &mut keys);
+            MVal::KeySet(keys)
         }
         Ty::Party => MVal::Party(gen_party(r)),
         Ty::SuppPub => MVal::SuppPub(gen_supp(r, o)),
@@ -759,7 +915,26 @@ pub fn mutate_item(r: &mut Rng, it: &Item) -> Item {
     })
 }
 
+/// Tags an implementation might think "transparent": encoded-CBOR (24), the bignum tags (which over
+/// a short byte string *are* an integer), date/time, expected-conversion hints, URI, self-described
+/// CBOR, CWT, the COSE message tags, and arbitrary ones.
+pub const WRAP_TAGS: [u64; 18] = [24, 0, 1, 2, 3, 4, 5, 21, 22, 23, 32, 61, 55799, 16, 18, 98, 256, u64::MAX];
+
+/// Tag 2 / 3 around a byte string is a bignum: whether the CBOR layer folds it into an integer
+/// depends on how the string is encoded (section 1 of DESIGN.md, P4), so styled encodings of it are
+/// outside the verdict alphabet.
+fn bignum_wrap(tag: u64, node: &Item) -> bool {
+    (tag == 2 || tag == 3) && matches!(node, Item::Bytes(_))
+}
+
 fn mutate_node(r: &mut Rng, node: &Item, choice: usize) -> Item {
+    if choice >= 94 {
+        // the node as it is, wrapped in a tag
+        let tag = *r.pick(&WRAP_TAGS);
+        if !bignum_wrap(tag, node) {
+            return Item::Tag(tag, Box::new(node.clone()));
+        }
+    }
     match node {
         Item::Map(m) if choice < 70 => {
             let mut m = m.clone();
@@ -892,6 +1067,19 @@ pub fn enum_faults(it: &Item) -> Vec<(String, Item)> {
         for k in 0..KIND_PALETTE_LEN {
             let v = replace_node(it, t, true, &mut |_| kind_palette(k));
             out.push((format!("replace#{}:{}", t, kind_palette(k).kind()), v));
+        }
+        // the node unchanged, wrapped in a tag
+        for tag in WRAP_TAGS {
+            let mut skip = false;
+            replace_node(it, t, true, &mut |node| {
+                skip = bignum_wrap(tag, node);
+                node.clone()
+            });
+            if skip {
+                continue;
+            }
+            let v = replace_node(it, t, true, &mut |node| Item::Tag(tag, Box::new(node.clone())));
+            out.push((format!("tagwrap#{}:{}", t, tag), v));
         }
         // container-specific
         let mut variants: Vec<Item> = Vec::new();
